@@ -61,6 +61,53 @@ def fail(res, vclass, detail):
         res['detail'] = detail
     return res
 
+class ChildKilled(Exception):
+    pass
+
+def in_child(fn, timeout):
+    """Run fn() in a forked child and return its (picklable) result; raise ChildKilled if the child has to be killed.
+    For calls into C code that cannot be interrupted by a signal handler: a defect there may turn into an endless loop."""
+    import pickle, select, signal
+    rfd, wfd = os.pipe()
+    pid = os.fork()
+    if pid == 0:
+        try:
+            os.close(rfd)
+            signal.alarm(0)
+            try:
+                data = pickle.dumps(('ok', fn()))
+            except BaseException as e:
+                data = pickle.dumps(('exc', type(e).__name__, str(e)))
+            while data:
+                n = os.write(wfd, data)
+                data = data[n:]
+        finally:
+            os._exit(0)
+    os.close(wfd)
+    chunks = []
+    deadline = time.time() + timeout
+    killed = False
+    while True:
+        left = deadline - time.time()
+        rl = select.select([rfd], [], [], left)[0] if left > 0 else []
+        if not rl:
+            killed = True
+            break
+        b = os.read(rfd, 1 << 20)
+        if not b:
+            break
+        chunks.append(b)
+    os.close(rfd)
+    if killed:
+        try:
+            os.kill(pid, signal.SIGKILL)
+        except OSError:
+            pass
+    os.waitpid(pid, 0)
+    if killed or not chunks:
+        raise ChildKilled()
+    return pickle.loads(b''.join(chunks))
+
 def bump(res, key, n=1):
     res['stats'][key] = res['stats'].get(key, 0) + n
 
@@ -102,7 +149,10 @@ def _chunk(args):
         try:
             res = run_guarded(driver, scn)
         except RunTimeout:
-            return {'error': 'timeout in run %d (seed %d)' % (i, seed_i), 'scenario': scn}
+            # not fatal at once: other scenarios may still show a violation; at the end a batch with killed or timed-out
+            # executions and no violation is a HARNESS-ERROR (exit 2), never a pass
+            res = new_result()
+            res['discard'] = 'HANG: a run exceeded the per-run wall-clock guard'
         except Exception:
             return {'error': 'exception in run %d (seed %d):\n%s' % (i, seed_i, traceback.format_exc()), 'scenario': scn}
         agg['n'] += 1
@@ -398,6 +448,11 @@ def main(prop, tier, base_seed, jobs=None, runs=None, budget_s=None, digest_out=
     }
     for p in coverage['probes_stuck_at_zero']:
         print('warning: probe stuck at zero: %s' % p)
+    hangs = {k: v for k, v in total['discards'].items() if k.startswith('HANG:')}
+    if hangs and not reported:
+        # an execution that had to be killed is neither a pass nor (a wall-clock limit never decides) a violation
+        print('HARNESS-ERROR property=%s %d execution(s) did not return and were killed, no verdict: %s' % (prop, sum(hangs.values()), '; '.join(hangs)))
+        return 2
     write_evidence(prop, tier, base_seed, coverage, desc.get('assumptions', []), wall, len(reported))
     print('%s: %d runs, %d distinct non-trivial cases, %d discarded, %.1fs, %d violation class(es)' % (
         prop, total['n'], len(total['sigs']), sum(total['discards'].values()), wall, len(reported)))
